@@ -61,6 +61,26 @@ class Arr:
         return "Arr%r" % (self.items,)
 
 
+class Closure:
+    """A lambda object: its call operator and the frame it was created in (captures are read through that frame: by-reference
+    semantics for every capture, which equals by-copy semantics unless the captured variable changes between the lambda's
+    creation and its call or the lambda is `mutable` - neither is accepted silently: see e_lambda)."""
+    __slots__ = ("fid", "env")
+
+    def __init__(self, fid, env):
+        self.fid = fid
+        self.env = env
+
+    def __repr__(self):
+        return "Closure(%s)" % self.fid
+
+    def __eq__(self, o):
+        return isinstance(o, Closure) and o.fid == self.fid and o.env is self.env
+
+    def __hash__(self):
+        return hash(("closure", self.fid))
+
+
 class Str:
     """String template: literal chunks and holes."""
     __slots__ = ("parts",)
@@ -410,6 +430,13 @@ class Evaluator:
         self.depth += 1
         try:
             frame = {"f": f, "this": this_lv, "params": [], "locals": {}}
+            if this_lv is not None and f.get("sname") == "operator()":
+                try:
+                    clo = self.load(this_lv)
+                except Exception:
+                    clo = None
+                if isinstance(clo, Closure):
+                    frame["env"] = clo.env
             for p, a in zip(f["params"], args):
                 pt = self.F.T(p["t"])
                 if isinstance(a, LV):
@@ -772,18 +799,28 @@ class Evaluator:
         raise Inconclusive("sizeof")
 
     def e_this(self, e, frame):
-        lv = frame["this"]
+        fr = frame
+        while fr.get("env") is not None:      # `this` inside a lambda body is the enclosing object
+            fr = fr["env"]
+        lv = fr["this"]
         return ("ptr", lv.loc, lv.path)
 
     def e_parm(self, e, frame):
         if e.get("d", 0) != 0 and frame.get("outer"):
             return frame["outer"]["params"][e["i"]]
-        return frame["params"][e["i"]]
+        owner = e.get("fn")
+        fr = frame
+        while owner is not None and fr["f"].get("id") != owner and fr.get("env") is not None:
+            fr = fr["env"]                     # a captured parameter of an enclosing function
+        return fr["params"][e["i"]]
 
     def e_local(self, e, frame):
-        if e["i"] not in frame["locals"]:
-            raise Inconclusive("use of unknown local " + e["n"])
-        return frame["locals"][e["i"]]
+        fr = frame
+        while e["i"] not in fr["locals"]:
+            if fr.get("env") is None:
+                raise Inconclusive("use of unknown local " + e["n"])
+            fr = fr["env"]                     # a captured local of an enclosing function
+        return fr["locals"][e["i"]]
 
     def e_enumc(self, e, frame):
         return ("enum", strip_cvref(self.F.T(e["t"])), e["n"])
@@ -1174,8 +1211,13 @@ class Evaluator:
     def e_stdil(self, e, frame):
         return self.eval(e["e"], frame)
 
+    def e_binding(self, e, frame):
+        if "e" not in e:
+            raise Inconclusive("structured binding without a binding expression")
+        return self.eval(e["e"], frame)
+
     def e_lambda(self, e, frame):
-        return ("lambda", e.get("f"))
+        return Closure(e.get("f"), frame)
 
     def e_throw(self, e, frame):
         raise Inconclusive("throw expression")
@@ -1309,6 +1351,11 @@ class Evaluator:
             raise Inconclusive("string constructor from " + repr(v)[:60])
         if tname == "std::nullopt_t":
             return ("nullopt",)
+        if tname.startswith("std::tuple<"):
+            vs = [self.rv(self.eval(a, frame)) for a in args]
+            if len(vs) == 1 and isinstance(vs[0], tuple) and vs[0] and vs[0][0] == "tuple":
+                return vs[0]                      # copy / move
+            return ("tuple", tuple(vs))
         if tname.startswith("std::pair<"):
             vs = [self.rv(self.eval(a, frame)) for a in args]
             if len(vs) == 2:
@@ -1359,9 +1406,12 @@ class Evaluator:
         m = re.match(r"std::operator(==|!=|<=|>=|<|>)$", f.get("qname", ""))
         if m and len(args) == 2 and this_lv is None:
             a, b = val(0), val(1)
+            xs = ys = None
             if isinstance(a, Obj) and isinstance(b, Obj) and a.type.startswith("std::array<") and a.type == b.type:
                 xs, ys = a.f["_M_elems"].items, b.f["_M_elems"].items
-
+            elif isinstance(a, tuple) and isinstance(b, tuple) and a and b and a[0] == "tuple" and b[0] == "tuple" and len(a[1]) == len(b[1]):
+                xs, ys = a[1], b[1]          # std::tuple: the same element-wise == and lexicographic < ([tuple.rel])
+            if xs is not None:
                 def eq():
                     r = True
                     for x, y in zip(xs, ys):
@@ -1376,6 +1426,26 @@ class Evaluator:
                 op = m.group(1)
                 return {"==": eq, "!=": lambda: b_not(eq()), "<": lambda: lt(xs, ys), ">": lambda: lt(ys, xs),
                         "<=": lambda: b_not(lt(ys, xs)), ">=": lambda: b_not(lt(xs, ys))}[op]()
+        # ---- <algorithm>/<numeric> over ranges of a (std::)array given by two pointers/iterators into it
+        if base in self.RANGE_ALGOS and this_lv is None and args:
+            r = self.range_algorithm(sn, [a if isinstance(a, LV) else a for a in args], val)
+            if r is not _NOMODEL:
+                return r
+        if base in ("std::begin", "std::cbegin", "std::end", "std::cend", "std::size", "std::data") and len(args) == 1 and isinstance(args[0], LV):
+            v0 = val(0)
+            if isinstance(v0, Obj) and v0.type.startswith("std::array<"):
+                n = len(v0.f["_M_elems"].items)
+                if sn == "size":
+                    return n
+                return ("ptr", args[0].loc, args[0].path + ("_M_elems", n if sn in ("end", "cend") else 0))
+        # ---- tuples (only what comparisons through std::tie / std::make_tuple need) and std::make_optional
+        if base in ("std::make_tuple", "std::tie", "std::forward_as_tuple") and this_lv is None:
+            return ("tuple", tuple(val(i) for i in range(len(args))))
+        if base == "std::make_optional" and len(args) == 1 and this_lv is None:
+            return ("opt", True, val(0))
+        m = re.match(r"std::get<(\d+)U?L?[,>]", name)
+        if m and len(args) == 1 and this_lv is None and isinstance(val(0), tuple) and val(0) and val(0)[0] == "tuple":
+            return val(0)[1][int(m.group(1))]
         # ---- std::get<I>(std::array)
         m = re.match(r"std::get<(\d+)U?L?,", name)
         if m and len(args) == 1 and this_lv is None:
@@ -1554,6 +1624,133 @@ class Evaluator:
         # ---- anything else: uninterpreted
         self.unknown_calls.append(name)
         return ("fn", "?" + name) + tuple(_freeze(self.rv(a)) for a in args)
+
+    RANGE_ALGOS = {"std::transform", "std::equal", "std::all_of", "std::any_of", "std::none_of", "std::accumulate", "std::copy",
+                   "std::fill", "std::for_each", "std::inner_product", "std::copy_n", "std::fill_n"}
+
+    def _range(self, first, last):
+        """Element lvalues of [first, last) when both point into the same array at concrete positions, else None."""
+        if not (isinstance(first, tuple) and isinstance(last, tuple) and first and last and first[0] == "ptr" and last[0] == "ptr"):
+            return None
+        if first[1] != last[1] or first[2][:-1] != last[2][:-1]:
+            return None
+        i, j = first[2][-1], last[2][-1]
+        if not (isinstance(i, int) and isinstance(j, int) and 0 <= i <= j):
+            return None
+        arr = self.load(LV(first[1], first[2][:-1]))
+        if not isinstance(arr, Arr) or j > len(arr.items):
+            raise Inconclusive("bad array range [%d, %d) (size %s)" % (i, j, len(arr.items) if isinstance(arr, Arr) else "?"))
+        return [LV(first[1], first[2][:-1] + (k,)) for k in range(i, j)]
+
+    def _from(self, first, n):
+        """n element lvalues starting at pointer `first`."""
+        if not (isinstance(first, tuple) and first and first[0] == "ptr" and isinstance(first[2][-1], int)):
+            return None
+        i = first[2][-1]
+        arr = self.load(LV(first[1], first[2][:-1]))
+        if not isinstance(arr, Arr) or i + n > len(arr.items):
+            raise Inconclusive("bad array range [%d, %d) (size %s)" % (i, i + n, len(arr.items) if isinstance(arr, Arr) else "?"))
+        return [LV(first[1], first[2][:-1] + (k,)) for k in range(i, i + n)]
+
+    def apply_callable(self, fnv, arg_lvs):
+        """Call a lambda / function reference on element lvalues (passed by reference or by value as its parameters say)."""
+        if isinstance(fnv, LV):
+            fnv = self.load(fnv)
+        if isinstance(fnv, Closure):
+            callee, this_lv = self.F.fn(fnv.fid), self.new_loc(fnv, "closure")
+        elif isinstance(fnv, tuple) and fnv and fnv[0] == "fnref":
+            callee, this_lv = self.F.fn(fnv[1]), None
+        else:
+            raise Inconclusive("call of a function object the evaluator cannot see into: %r" % (fnv,))
+        a = []
+        for p, x in zip(callee["params"], arg_lvs):
+            if is_ref(self.F.T(p["t"])):
+                a.append(x if isinstance(x, LV) else self.new_loc(x, "tmp"))
+            else:
+                a.append(self.rv(x))
+        return self.rv(self._invoke(callee, this_lv, a))
+
+    def range_algorithm(self, sn, args, val):
+        vals = [val(i) for i in range(len(args))]
+        rng = self._range(vals[0], vals[1]) if len(vals) >= 2 else None
+        if sn in ("copy_n", "fill_n"):
+            n = vals[1]
+            if not isinstance(n, int):
+                return _NOMODEL
+            if sn == "fill_n":
+                dst = self._from(vals[0], n)
+                if dst is None:
+                    return _NOMODEL
+                for d in dst:
+                    self.save(d, vals[2])
+                return ("ptr", vals[0][1], vals[0][2][:-1] + (vals[0][2][-1] + n,))
+            src, dst = self._from(vals[0], n), self._from(vals[2], n)
+            if src is None or dst is None:
+                return _NOMODEL
+            for x, d in zip([self.load(x) for x in src], dst):
+                self.save(d, x)
+            return ("ptr", vals[2][1], vals[2][2][:-1] + (vals[2][2][-1] + n,))
+        if rng is None:
+            return _NOMODEL
+        n = len(rng)
+        if sn == "transform" and len(args) == 4:
+            dst = self._from(vals[2], n)
+            if dst is None:
+                return _NOMODEL
+            for x, d in zip(rng, dst):
+                self.save(d, self.apply_callable(args[3], [x]))
+            return ("ptr", vals[2][1], vals[2][2][:-1] + (vals[2][2][-1] + n,))
+        if sn == "transform" and len(args) == 5:
+            src2, dst = self._from(vals[2], n), self._from(vals[3], n)
+            if src2 is None or dst is None:
+                return _NOMODEL
+            for x, y, d in zip(rng, src2, dst):
+                self.save(d, self.apply_callable(args[4], [x, y]))
+            return ("ptr", vals[3][1], vals[3][2][:-1] + (vals[3][2][-1] + n,))
+        if sn == "equal" and len(args) in (3, 4):
+            src2 = self._from(vals[2], n)
+            if src2 is None:
+                return _NOMODEL
+            r = True
+            for x, y in zip(rng, src2):
+                c = self.apply_callable(args[3], [x, y]) if len(args) == 4 else self.compare("==", self.load(x), self.load(y))
+                r = b_and(r, c)
+            return r
+        if sn in ("all_of", "any_of", "none_of") and len(args) == 3:
+            r = True if sn != "any_of" else False
+            for x in rng:
+                c = self.apply_callable(args[2], [x])
+                r = b_and(r, c) if sn == "all_of" else (b_or(r, c) if sn == "any_of" else b_and(r, b_not(c)))
+            return r
+        if sn == "accumulate" and len(args) in (3, 4):
+            acc = vals[2]
+            for x in rng:
+                acc = self.apply_callable(args[3], [acc, x]) if len(args) == 4 else self.arith("+", acc, self.load(x))
+            return acc
+        if sn == "inner_product" and len(args) == 4:
+            src2 = self._from(vals[2], n)
+            if src2 is None:
+                return _NOMODEL
+            acc = vals[3]
+            for x, y in zip(rng, src2):
+                acc = self.arith("+", acc, self.arith("*", self.load(x), self.load(y)))
+            return acc
+        if sn == "copy" and len(args) == 3:
+            dst = self._from(vals[2], n)
+            if dst is None:
+                return _NOMODEL
+            for x, d in zip([self.load(x) for x in rng], dst):
+                self.save(d, x)
+            return ("ptr", vals[2][1], vals[2][2][:-1] + (vals[2][2][-1] + n,))
+        if sn == "fill" and len(args) == 3:
+            for d in rng:
+                self.save(d, vals[2])
+            return None
+        if sn == "for_each" and len(args) == 3:
+            for x in rng:
+                self.apply_callable(args[2], [x])
+            return vals[2]
+        return _NOMODEL
 
     def _as_loc(self, v):
         lv = self.new_loc(v, "entry")
